@@ -78,6 +78,8 @@ def gen_type(rnd, name, used_ids, kind, derive=None, n_units=None, allow_ties=Tr
                 continue
             vals.add(val)
             chosen.append((lit, val))
+        while len(chosen) < n - 1:      # more units than distinct spellings: repeat scales (more ties)
+            chosen.append(rnd.choice(SCALES))
         for lit, val in chosen:
             u = {'w': ident(rnd, used_ids), 'sym': symbol(rnd, syms), 'pfx': rnd.choice(SI) if rnd.random() < 0.4 else None,
                  'lit': lit, 'def': {'f': '%d/%d' % (val.numerator, val.denominator), 'of': ru['w']}}
@@ -117,7 +119,7 @@ def gen_type(rnd, name, used_ids, kind, derive=None, n_units=None, allow_ties=Tr
     return t
 
 
-def gen_registry(seed, n_base=3, n_derived=2, prefix='G'):
+def gen_registry(seed, n_base=3, n_derived=2, prefix='G', big=False):
     rnd = random.Random(seed)
     used = set()
     types = []
@@ -126,6 +128,12 @@ def gen_registry(seed, n_base=3, n_derived=2, prefix='G'):
         nm = '%s%dB%d' % (prefix, seed % 100000, i)
         types.append(gen_type(rnd, nm, used, 'ref'))
         names.append(nm)
+    if big:
+        # one type with more than 20 units and many tied scales (sorting algorithms behave differently beyond
+        # small sizes; ties must keep attribute order)
+        nm = '%s%dL' % (prefix, seed % 100000)
+        t = gen_type(rnd, nm, used, 'ref', n_units=rnd.randint(23, 30), allow_ties=True)
+        types.append(t)
     nr = '%s%dN' % (prefix, seed % 100000)
     types.append(gen_type(rnd, nr, used, 'noref', n_units=rnd.randint(2, 5)))
     sg = '%s%dS' % (prefix, seed % 100000)
